@@ -199,6 +199,17 @@ func genMAL(c *ctx) {
 		b = append(b, refVarint(0)...)
 		c.emit(T("mal-soak", ty, sch, H(b), I(int64(c.scale(200000, 2000000)))))
 	}
+	// a fixed schema whose size is negative (a schema document can say so): read into an array target and skipped
+	for _, size := range []int{-1, -8} {
+		sch := sRecord("neg", avro.SchemaRecordField{Name: "f", Type: sFixed("fx", size)}, avro.SchemaRecordField{Name: "tail", Type: sPrim("long")})
+		for _, ty := range []sx{
+			T("struct", hs("H"), hs(""), T("field", hs("F"), A("true"), hs("f"), hs(""), T("array", I(4), T("uint", I(8)))), T("field", hs("Tail"), A("true"), hs("tail"), hs(""), tInt(64))),
+			T("struct", hs("H"), hs(""), T("field", hs("Tail"), A("true"), hs("tail"), hs(""), tInt(64))),
+		} {
+			c.emit(T("mal-read", ty, schemaSx(sch), H([]byte{1, 2, 3, 4, 5, 6, 7, 8, 9, 10}), T("tag", A("negative-fixed-size"))))
+			c.emit(T("mal-skip", ty, schemaSx(sch), H([]byte{1, 2, 3, 4, 5, 6, 7, 8, 9, 10}), T("tag", A("negative-fixed-size"))))
+		}
+	}
 	bigBudget := c.scale(12, 200) // counts of 2^21: tens of megabytes each
 	fatalBudget := c.scale(0, 6)  // huge declared counts are fatal (out of memory) or loop for hours: only a few per run, isolated by ./check
 	n := c.scale(60, 2000)
@@ -232,6 +243,20 @@ func genMAL(c *ctx) {
 				}
 				mut := append(append(append([]byte(nil), bs[:f.off]...), nv...), bs[f.off+f.n:]...)
 				emit(mut, tag)
+			}
+			if f.role != "count" {
+				// a moderately large number (what a pre-sizing allocation would take at face value)
+				for _, big := range []int64{1 << 21, -(1 << 21)} {
+					mut := append(append(append([]byte(nil), bs[:f.off]...), refVarint(big)...), bs[f.off+f.n:]...)
+					emit(mut, f.role)
+				}
+			}
+			if f.role == "sel" {
+				// a union selector just outside the branch list (the branch count itself, one more, ...)
+				for sel := int64(1); sel <= 5; sel++ {
+					mut := append(append(append([]byte(nil), bs[:f.off]...), refVarint(sel)...), bs[f.off+f.n:]...)
+					emit(mut, "sel-small")
+				}
 			}
 			if f.role == "count" && bigBudget > 0 {
 				bigBudget--
